@@ -149,7 +149,7 @@ def auto_mix_scenario(alpha, use_ste):
 
 
 def update_scenario(cls, mode):
-  """mode: 'float' | 'var_build_then_update' | 'var_update_then_build' | 'var_autobuild'"""
+  """mode: 'float' | 'float_after_call' | 'float_twice' | 'var_build_then_update' | 'var_update_then_build' | 'var_autobuild'"""
   def scenario(ip):
     s = Scen()
     bits, integer = z3.Int("bits"), z3.Int("integer")
@@ -163,6 +163,11 @@ def update_scenario(cls, mode):
     fv = SNum(f, "float")
     if mode == "float":
       steps = [("update", fv)]
+    elif mode == "float_after_call":
+      # python-float storage, the quantizer has already been used once (so it is built) before the update
+      steps = [("call", None), ("update", fv)]
+    elif mode == "float_twice":
+      steps = [("update", SNum(g, "float")), ("call", None), ("update", fv)]
     elif mode == "var_build_then_update":
       steps = [("build", True), ("update", fv)]
     elif mode == "var_update_then_build":
@@ -173,6 +178,8 @@ def update_scenario(cls, mode):
     for what, arg in steps:
       if what == "build":
         r = run_call(ip, ip.getattr(q, "build"), [], {"use_variables": arg})
+      elif what == "call":
+        r = Q.call(ip, q, x)
       else:
         r = run_call(ip, ip.getattr(q, "update_qnoise_factor"), [arg])
       if r[0] != "return":
@@ -352,7 +359,7 @@ def cases(tier):
                       mix_scenario(cls, ste), bounds=bounds, replay_kind="c07_mix", assumptions=ASSUME,
                       lo=-130 if "po2" in cls else -12, hi=130 if "po2" in cls else 12))
   for cls in ("quantized_bits", "quantized_relu", "quantized_po2"):
-    for mode in ("float", "var_build_then_update", "var_update_then_build", "var_autobuild"):
+    for mode in ("float", "float_after_call", "float_twice", "var_build_then_update", "var_update_then_build", "var_autobuild"):
       out.append(Case(PROP, "qkeras/base_quantizer.py::BaseQuantizer.update_qnoise_factor", "%s_%s" % (cls, mode),
                       update_scenario(cls, mode), bounds=bounds, replay_kind="c07_update", assumptions=ASSUME, lo=-12, hi=12))
   for alpha in ("auto", "auto_po2") if tier == "thorough" else ("auto",):
